@@ -27,6 +27,7 @@ type ConcOpts struct {
 	Rounds     bool // C03: the clock only moves at barriers between rounds; deadline-aware lin model
 	SweepCheck bool // C13: advance the clock by more than a tick before the final CleanUp and demand a clean sweep
 	AsyncClock bool // C03/C02: tasks advance the clock while other operations are in flight; interval deadline model
+	Duel       bool // a third of the runs: the tiny "read near the deadline vs clock step + CleanUp" scenario (see sweepDuel)
 	AimAdvance bool // half of the clock advances are aimed at the configured lifetime (d, d-1, d/2+1, d+0..2, d/3+1)
 	Ticker     bool // half of the runs: clock advances feed the clock's ticker, so otter's periodic clean-up goroutine runs CleanUp concurrently with the clients
 	NonTrivial func(o *ConcOutcome) bool
